@@ -612,31 +612,50 @@ func checkDirectStarts(s *taskState, p *TaskPlan, rc *simkit.RunCtx, execWait ti
 		}
 	}
 	eligible := func(e *tExec) bool {
-		// requests made before the previous commit of this task were wiped by it
-		var own, prevBegin uint64
+		// A request arms up to two start paths (the queue entry and the schedule entry; that both can fire is the
+		// listed extra-run finding), and every commit of the task wipes what is armed at that moment. A request is
+		// therefore certainly spent only after two commits; for the combination rule below one commit is enough.
+		var own, prevBegin1, prevBegin uint64
 		for _, c := range s.commits[e.Task] {
 			if c < e.BeginSeq && c > own {
 				own = c
 			}
 		}
 		for _, c := range s.commits[e.Task] {
-			if c < own && c > prevBegin {
+			if c < own && c > prevBegin1 {
+				prevBegin1 = c
+			}
+		}
+		for _, c := range s.commits[e.Task] {
+			if c < prevBegin1 && c > prevBegin {
 				prevBegin = c
 			}
 		}
 		d := delay(e.Task)
 		var queued, sched []time.Duration
+		fresh := 0 // requests since the previous commit that put or find the task in a queue by the time e began
 		for _, o := range s.ops {
 			if o.Task != e.Task || o.Inv > e.BeginSeq || (o.Ret != 0 && o.Ret < prevBegin) {
 				continue
 			}
+			isFresh := o.Ret == 0 || o.Ret >= prevBegin1
 			switch o.Op {
 			case "queue", "prio", "asap":
 				queued = append(queued, o.T)
+				if isFresh {
+					fresh++
+				}
 			case "sched":
 				sched = append(sched, o.At)
+				if isFresh && o.At <= e.BeginT {
+					fresh++
+				}
 			case "schedzero":
+				// (un-scheduling a queued task can start it at once: the listed finding C07.early)
 				sched = append(sched, o.T)
+				if isFresh {
+					fresh++
+				}
 			}
 		}
 		for _, t := range queued {
@@ -655,7 +674,7 @@ func checkDirectStarts(s *taskState, p *TaskPlan, rc *simkit.RunCtx, execWait ti
 		}
 		// A task that is waiting in a queue (put there by a request or by the schedule handler when its first
 		// scheduled time came) and is then given a new scheduled time is started directly at that time.
-		if due > 0 && len(queued)+due >= 2 {
+		if due > 0 && fresh >= 2 {
 			return true
 		}
 		return false
